@@ -82,6 +82,10 @@ class Entity:
         self.battery = []  # type: List[Dict[str, Any]]
 
 
+def observed_members(spec: Dict[str, Any]) -> List[Dict[str, Any]]:
+    return list(spec.get("members", [])) + list(spec.get("aliases", []))
+
+
 def all_ids_of(spec_class: Dict[str, Any]) -> List[str]:
     ids = [i["id"] for i in spec_class.get("invs", [])]
     for m in spec_class.get("members", []):
@@ -103,7 +107,7 @@ def behaviour(hub: probe.Hub, module: Any, ent: Entity, known_ids: List[str]) ->
         ops = []
         if ent.is_class:
             ops.append(("construct", None))
-            for m in ent.spec.get("members", []):
+            for m in observed_members(ent.spec):
                 if m["name"] not in [o[1] for o in ops]:
                     ops.append(("call", m["name"]))
             ops.append(("setattr", "zz_attr"))
@@ -169,6 +173,27 @@ def make_step(rng, ids: gen.Ids, existing: List[Dict[str, Any]], member_pool: Li
         invs.append({"id": ids.new("i"), "check_on": rng.choice(CHECK_ONS), "err": "instance", "self": rng.random() < 0.8,
                      "form": rng.choice(("def", "lambda"))})
     members = []
+    class_body = []
+    aliases = []
+    if bases and rng.random() < 0.35:
+        # re-use members of a base as they are: an accessor added to an inherited property (@Base.p.setter keeps the base's
+        # getter object) or a plain alias of an inherited function
+        model = _Model({"classes": existing})
+        b = bases[0]
+        cands = []
+        for k in model.mro(b):
+            for m in model.classes[k].get("members", []):
+                cands.append((k, m))
+        rng.shuffle(cands)
+        for k, m in cands[:1]:
+            if m["kind"] == "pget":
+                ext = gen.make_member(ids, rng, "pset", m["name"], False, rng.randint(0, 1) if False else 0, rng.randint(0, 1), 0,
+                                      forms=["def", "lambda"], errs=["instance", "default"], params=[prog.P("self"), prog.P("value")])
+                ext["ext_of"] = k
+                members.append(ext)
+            elif m["kind"] == "method":
+                class_body.append("{} = {}.{}".format(m["name"], k, m["name"]))
+                aliases.append({"name": m["name"], "kind": "method", "params": m["params"], "decos": []})
     for _ in range(rng.randint(0, 2)):
         if member_pool and rng.random() < 0.65:
             mname, kind = rng.choice(member_pool)
@@ -176,7 +201,7 @@ def make_step(rng, ids: gen.Ids, existing: List[Dict[str, Any]], member_pool: Li
             kind = rng.choice(("method", "method", "static", "class", "pget"))
             mname = ids.new("m")
             member_pool.append((mname, kind))
-        if any(m["name"] == mname for m in members):
+        if any(m["name"] == mname for m in members) or any(a["name"] == mname for a in aliases):
             continue
         choice = rng.choice(("plain", "pre", "post", "both"))
         params = {"method": [prog.P("self"), prog.P("x")], "static": [prog.P("x")], "class": [prog.P("cls"), prog.P("x")],
@@ -185,7 +210,7 @@ def make_step(rng, ids: gen.Ids, existing: List[Dict[str, Any]], member_pool: Li
                             rng.randint(1, 2) if choice in ("post", "both") else 0, rng.randint(0, 1), forms=["def", "lambda"],
                             errs=["instance", "default", "factory"], params=params)
         members.append(m)
-    return {"name": name, "bases": bases, "dbc": True, "invs": invs, "members": members}
+    return {"name": name, "bases": bases, "dbc": True, "invs": invs, "members": members, "class_body": class_body, "aliases": aliases}
 
 
 def classify(hist: List[Dict[str, Any]], victim: Entity, culprit_step: Dict[str, Any], changed: str) -> str:
@@ -201,6 +226,9 @@ def classify(hist: List[Dict[str, Any]], victim: Entity, culprit_step: Dict[str,
             new_kinds = {i.get("check_on") for i in culprit_step["invs"]}
             if (not has_set and new_kinds & {"SETATTR", "ALL"}) or (not has_call and new_kinds & {"CALL", "ALL"}):
                 return "C17/empty-inherited-invariant-list-shared-with-subclass"
+    if "name" in culprit_step and (culprit_step.get("aliases") or any(m.get("ext_of") for m in culprit_step.get("members", []))):
+        # the culprit re-uses a function object of an ancestor (alias / accessor kept by @Base.prop.setter)
+        return "C17/reused-base-member-merged-with-itself"
     return "C17/earlier-definition-changed/" + changed.strip("_")
 
 
@@ -248,7 +276,7 @@ def run_history(w, hist_index: int) -> None:
                 w.count("reobservations")
                 has_contracts = any(v for v in (ent.lists or {}).values())
                 w.case((hist_index, step_no, ent.name) if has_contracts else None)
-                now_lists = introspect(getattr(module, ent.name), ent.spec.get("members", []), ent.is_class)
+                now_lists = introspect(getattr(module, ent.name), observed_members(ent.spec), ent.is_class)
                 case = {"history": hist, "victim": ent.name, "step": step_no}
                 if now_lists != ent.lists:
                     changed = next(k for k in now_lists if now_lists[k] != ent.lists.get(k))
@@ -277,7 +305,7 @@ def run_history(w, hist_index: int) -> None:
                         if cid not in bids:
                             bids.append(cid)
                 ent.battery_ids = bids[:10]
-            ent.lists = introspect(getattr(module, name), ent.spec.get("members", []), ent.is_class)
+            ent.lists = introspect(getattr(module, name), observed_members(ent.spec), ent.is_class)
             ent.behaviour = behaviour(hub, module, ent, ent.battery_ids)
             w.count("battery_calls", len(ent.behaviour))
             entities.append(ent)
@@ -327,7 +355,7 @@ def replay(case, w) -> None:
                 fid.write(src)
             exec(compile(src, path, "exec"), module.__dict__)  # pylint: disable=exec-used
             for ent in entities:
-                now_lists = introspect(getattr(module, ent.name), ent.spec.get("members", []), ent.is_class)
+                now_lists = introspect(getattr(module, ent.name), observed_members(ent.spec), ent.is_class)
                 if now_lists != ent.lists:
                     changed = next(k for k in now_lists if now_lists[k] != ent.lists.get(k))
                     w.violation(classify(hist[: step_no + 1], ent, step, changed), "lists of {} changed after defining {}".format(ent.name, name), case)
@@ -349,7 +377,7 @@ def replay(case, w) -> None:
                         if cid not in bids:
                             bids.append(cid)
                 ent.battery_ids = bids[:10]
-            ent.lists = introspect(getattr(module, name), ent.spec.get("members", []), ent.is_class)
+            ent.lists = introspect(getattr(module, name), observed_members(ent.spec), ent.is_class)
             ent.behaviour = behaviour(hub, module, ent, ent.battery_ids)
             entities.append(ent)
     finally:
